@@ -127,6 +127,49 @@ fn main() {
             (code, calls, panics)
         }));
     }
+    // compound and hyphen-group words (a unit glued to a scale word, tens-unit groups) with the words they meet:
+    // every sequence of <= 3 of 8 words per language, same thresholds and entry points
+    let compound: [(&str, fn() -> Language, [&str; 8]); 7] = [
+        ("en", Language::english, ["ten", "thousand", "two-thousand", "twenty-one", "one", "hundred", "million", "five-hundred"]),
+        ("fr", Language::french, ["dix", "mille", "deux-mille", "vingt-et-un", "un", "cent", "million", "cinq-cents"]),
+        ("es", Language::spanish, ["diez", "mil", "veintiuno", "dieciséis", "uno", "cien", "millón", "doscientos"]),
+        ("pt", Language::portuguese, ["dez", "mil", "dezasseis", "duzentos", "um", "cem", "milhão", "quinhentos"]),
+        ("it", Language::italian, ["dieci", "mille", "duemila", "ventuno", "uno", "cento", "milione", "cinquecento"]),
+        ("de", Language::german, ["zehn", "tausend", "zweitausend", "einundzwanzig", "ein", "hundert", "million", "fünfhundert"]),
+        ("nl", Language::dutch, ["tien", "duizend", "tweeduizend", "eenentwintig", "een", "honderd", "miljoen", "vijfhonderd"]),
+    ];
+    for (code, mk, words) in compound {
+        hs.push(std::thread::spawn(move || {
+            let lang = mk();
+            let mut calls = 0u64;
+            let mut panics: Vec<String> = vec![];
+            let n = words.len();
+            for len in 1..=3u32 {
+                for mut x in 0..n.pow(len) {
+                    let mut ws: Vec<&str> = vec![];
+                    for _ in 0..len {
+                        ws.push(words[x % n]);
+                        x /= n;
+                    }
+                    let text = ws.join(" ");
+                    let toks: Vec<Tok> = ws.iter().map(|t| Tok(t.to_string())).collect();
+                    for thr in [0.0, 10.0, 50.0, 1000.0, f64::INFINITY, f64::NAN, -1.0] {
+                        calls += 4;
+                        let r = std::panic::catch_unwind(std::panic::AssertUnwindSafe(|| {
+                            let _ = text2digits(&text, &lang);
+                            let _ = replace_numbers_in_text(&text, &lang, thr);
+                            let _ = find_numbers(toks.iter(), &lang, thr);
+                            let _ = find_numbers_iter(toks.iter(), &lang, thr).count();
+                        }));
+                        if r.is_err() && panics.len() < 5 {
+                            panics.push(format!("panic {code} {text:?} threshold {thr}"));
+                        }
+                    }
+                }
+            }
+            (code, calls, panics)
+        }));
+    }
     std::panic::set_hook(Box::new(|_| {}));
     for h in hs {
         match h.join() {
